@@ -497,6 +497,12 @@ func (ex *Exec) jsonUnmarshalOpt(data *BytesV, dst *IfaceV, strict bool) Value {
 			}
 			sv, ok := ex.decStruct(st, s)
 			if ok {
+				// encoding/json decodes into the struct an existing non-nil pointer points at (and only allocates
+				// for a nil pointer): aliases of that pointer observe the new content
+				if cur, isPtr := ex.peek(p).(*PtrV); isPtr && cur.obj != nil && (cur.isNil == nil || cur.isNil.IsFalse()) {
+					ex.store(cur, sv)
+					return nilErr()
+				}
 				ex.store(p, &PtrV{obj: ex.newObj(sv, st), typ: et})
 				return nilErr()
 			}
